@@ -1,99 +1,219 @@
 (** C14 — Effective pipelines follow stage-wise inheritance; malformed rules are
-    rejected.  Property theorems only; proofs are in C14/Proofs.v.
+    rejected.  Property theorems only; the specification is C14/Spec.v (written
+    without the model's functions), the model C14/Model.v, the proofs C14/Proofs.v.
 
-    [create_rule true] is the rule factory of the tree as it is now (after the
-    `fix:` commit for finding C14-F1); [create_rule false] is the factory of the
-    pinned commit and is kept to document the finding. *)
-From HV Require Import Base.Prelude C14.Model C14.Proofs.
+    Scope.  The statement speaks about steps that name one mechanism.  A step map
+    with several mechanism keys and an `if` on an authenticator step are outside
+    it ([scoped_step]); what the code does with them (first key in a fixed order,
+    condition ignored) is covered by [C14_pipeline_language], which holds for every
+    list of step maps. *)
+From HV Require Import Base.Prelude C14.Model C14.Spec C14.Proofs.
 
-(** every accepted `execute` list is authenticators, then authorizers /
-    contextualizers, then finalizers, every step denoting a known mechanism with a
-    valid override and condition, and the three stage lists are exactly these
-    mechanisms in definition order; every other list is not accepted *)
-Theorem C14_order_language : forall sts pa ph pf,
-  exec_pipeline empty_pipes sts = Ok {| p_a := pa; p_h := ph; p_f := pf |} <->
-  exists a m f, sts = a ++ m ++ f /\
-    stage is_authn a pa /\ stage is_mid m ph /\ stage is_fin f pf.
-Proof. exact order_language. Qed.
-Print Assumptions C14_order_language.
+(** The rule factory computes the specification's effective rule, and rejects
+    exactly what the specification rejects, on every rule definition in scope,
+    for every default rule (absent or any effective rule), every `execute` /
+    `on_error` list of any length, with/without backtracking_enabled, both modes.
+    (Matchers are C03's business: a rule whose matchers cannot be built is
+    rejected whatever its pipeline.) *)
+Theorem C14_factory_meets_spec : forall proxy def r,
+  scoped_rule r = true ->
+  create_rule proxy def r =
+  if r_matchers_ok r then match spec_rule proxy def r with Some e => Ok e | None => Rejected end else Rejected.
+Proof. exact create_rule_spec. Qed.
+Print Assumptions C14_factory_meets_spec.
 
-(** stage by stage own-else-default; backtracking own, else default's, else off *)
+(** sentence 1, spelled out: stage by stage the rule's own mechanisms of that
+    stage (the mechanisms its steps denote, in definition order, split by kind) if
+    there is at least one, otherwise the default rule's; backtracking the rule's
+    own if given, otherwise the default rule's, otherwise off *)
 Theorem C14_stagewise_inheritance : forall proxy def r eff,
-  create_rule true proxy def r = Ok eff ->
-  exists a h f e, own_stages r a h f e /\ eff = spec_effective def r a h f e.
-Proof. intros proxy def r eff. apply stagewise_inheritance. reflexivity. Qed.
+  scoped_rule r = true ->
+  create_rule proxy def r = Ok eff ->
+  exists ms e,
+    all_some (map spec_mech (r_exec r)) = Some ms /\ spec_errors (r_eh r) = Some e /\
+    f_sc eff = inherit (filter (of_rank 0) ms) (dflt def f_sc) /\
+    f_sh eff = inherit (filter (of_rank 1) ms) (dflt def f_sh) /\
+    f_fi eff = inherit (filter (of_rank 2) ms) (dflt def f_fi) /\
+    f_eh eff = inherit e (dflt def f_eh) /\
+    f_bt eff = match r_bt r with
+               | Some b => b
+               | None => match def with Some d => f_bt d | None => false end
+               end.
+Proof. exact stagewise_inheritance. Qed.
 Print Assumptions C14_stagewise_inheritance.
 
-(** the same for the pinned (unrepaired) factory, outside the guard of C14-F1 *)
-Theorem C14_stagewise_inheritance_pinned : forall proxy def r eff,
-  guard_F1 def r = false ->
-  create_rule false proxy def r = Ok eff ->
-  exists a h f e, own_stages r a h f e /\ eff = spec_effective def r a h f e.
-Proof. intros proxy def r eff Hg. apply stagewise_inheritance. rewrite Hg. reflexivity. Qed.
-Print Assumptions C14_stagewise_inheritance_pinned.
+(** sentence 2, clause by clause: a step naming no / an unknown mechanism, a
+    bad override or condition; an `execute` list not ordered authenticators,
+    authorizers/contextualizers, finalizers; no authenticator in the end; no
+    forward_to in proxy mode — each rejects the rule *)
+Theorem C14_malformed_rejected : forall proxy def r,
+  scoped_rule r = true ->
+  (exists st, In st (r_exec r) /\ spec_mech st = None) \/
+  (exists e, In e (r_eh r) /\ spec_eh_mech e = None) \/
+  (exists ms, all_some (map spec_mech (r_exec r)) = Some ms /\ sortedb (map rk ms) = false) \/
+  (exists ms, all_some (map spec_mech (r_exec r)) = Some ms /\ filter (of_rank 0) ms = [] /\ dflt def f_sc = []) \/
+  (proxy = true /\ r_backend r = false) ->
+  create_rule proxy def r = Rejected.
+Proof. exact malformed_rejected. Qed.
+Print Assumptions C14_malformed_rejected.
 
-Theorem C14_F1_pinned_refuted :
-  exists def r eff, guard_F1 def r = true /\ create_rule false false def r = Ok eff /\
-    forall a h f e, own_stages r a h f e -> eff <> spec_effective def r a h f e.
-Proof. exact F1_refuted. Qed.
-Print Assumptions C14_F1_pinned_refuted.
-
-(** a rule is accepted only if it is ordered, references only known mechanisms
-    with valid overrides/conditions, ends up with an authenticator, and has
-    forward_to in proxy mode *)
-Theorem C14_accepted_only_if_wellformed : forall fixed proxy def r eff,
-  create_rule fixed proxy def r = Ok eff ->
-  (exists a m f pa ph pf, r_exec r = a ++ m ++ f /\
-      stage is_authn a pa /\ stage is_mid m ph /\ stage is_fin f pf) /\
-  (exists pe, Forall2 eh_denotes (r_eh r) pe) /\
-  f_sc eff <> [] /\
-  (proxy = true -> r_backend r = true).
-Proof. exact accepted_only_if_wellformed. Qed.
-Print Assumptions C14_accepted_only_if_wellformed.
-
-(** and nothing else is rejected *)
-Theorem C14_wellformed_accepted : forall fixed proxy def r a m f pa ph pf pe,
-  r_exec r = a ++ m ++ f ->
-  stage is_authn a pa -> stage is_mid m ph -> stage is_fin f pf ->
-  Forall2 eh_denotes (r_eh r) pe ->
-  (pa <> [] \/ exists d, def = Some d /\ f_sc d <> []) ->
+(** and the rule factory rejects nothing else *)
+Theorem C14_wellformed_accepted : forall proxy def r ms e,
+  scoped_rule r = true ->
+  all_some (map spec_mech (r_exec r)) = Some ms -> sortedb (map rk ms) = true ->
+  spec_errors (r_eh r) = Some e ->
+  (filter (of_rank 0) ms <> [] \/ dflt def f_sc <> []) ->
   (proxy = true -> r_backend r = true) -> r_matchers_ok r = true ->
-  exists eff, create_rule fixed proxy def r = Ok eff.
+  exists eff, create_rule proxy def r = Ok eff.
 Proof. exact wellformed_accepted. Qed.
 Print Assumptions C14_wellformed_accepted.
 
-(** a rule set is loaded as a whole or not at all: it is accepted iff every one
-    of its rules is, so one malformed rule rejects the set *)
-Theorem C14_ruleset_all_or_nothing : forall fixed proxy def rs effs,
-  load_rules fixed proxy def rs = Ok effs <->
-  Forall2 (fun r e => create_rule fixed proxy def r = Ok e) rs effs.
+(** the default rule: its stages are its own steps' mechanisms in definition
+    order; a misordered one, one with a malformed step or one without an
+    authenticator is refused (start-up fails) *)
+Theorem C14_default_rule_meets_spec : forall d,
+  forallb scoped_step (d_exec d) = true ->
+  init_default d = match spec_default d with Some e => Ok e | None => Rejected end.
+Proof. exact init_default_spec. Qed.
+Print Assumptions C14_default_rule_meets_spec.
+
+(** every list of step maps (in or out of scope): the accumulating order checks
+    of createExecutePipeline accept exactly the lists whose steps all denote a
+    mechanism — as the code reads a step: [model_mech] — and are sorted by stage;
+    the three stages are the mechanisms of each stage in definition order *)
+Theorem C14_pipeline_language : forall sts,
+  exec_pipeline empty_pipes sts =
+  match model_pipeline sts with
+  | Some (a, h, f) => Ok {| p_a := a; p_h := h; p_f := f |}
+  | None => Rejected
+  end.
+Proof. exact pipeline_language_triple. Qed.
+Print Assumptions C14_pipeline_language.
+
+(** on the steps the statement speaks about, the code's reading of a step is the specification's *)
+Theorem C14_reading_in_scope : forall st, scoped_step st = true -> model_mech st = spec_mech st.
+Proof. exact model_mech_scoped. Qed.
+Print Assumptions C14_reading_in_scope.
+
+(** "rejected when its rule set is loaded": the loader of a rule set (parser
+    validation, version check, rule factory) accepts a set iff it accepts every
+    rule of it ... *)
+Theorem C14_ruleset_all_or_nothing : forall proxy def sd effs,
+  load_ruleset proxy def sd = Ok effs <->
+  forallb parse_ok (sd_rules sd) = true /\ sd_version_ok sd = true /\
+  Forall2 (fun r e => create_rule proxy def r = Ok e) (sd_rules sd) effs.
 Proof. exact ruleset_all_or_nothing. Qed.
 Print Assumptions C14_ruleset_all_or_nothing.
 
-Theorem C14_ruleset_one_bad_rejects : forall fixed proxy def rs1 r rs2,
-  (forall e, create_rule fixed proxy def r <> Ok e) ->
-  forall effs, load_rules fixed proxy def (rs1 ++ r :: rs2) <> Ok effs.
+(** ... so one rule the factory does not accept, anywhere in the set, makes the
+    load (creation as well as update) report a rejection and leaves the rules of
+    that source what they were *)
+Theorem C14_ruleset_one_bad_rejects : forall proxy def v rs1 r rs2 old,
+  (forall e, create_rule proxy def r <> Ok e) ->
+  let res := load_ruleset proxy def {| sd_version_ok := v; sd_rules := rs1 ++ r :: rs2 |} in
+  is_ok res = false /\ after old res = old.
 Proof. exact ruleset_one_bad_rejects. Qed.
 Print Assumptions C14_ruleset_one_bad_rejects.
 
-(** no definition — whatever sits under a mechanism key or under "config", "if" —
-    makes the factory panic: every malformed rule (set) is rejected (since fix
-    f8fe9cb; before it a non-string mechanism id or a non-map config panicked,
-    finding C19-F3) *)
-Theorem C14_loader_total : forall fixed proxy d r rs def,
-  load fixed proxy d r <> FactoryPanic /\ load fixed proxy d r <> Loaded Panic /\
-  load_rules fixed proxy def rs <> Panic.
-Proof. exact loader_total. Qed.
-Print Assumptions C14_loader_total.
+(** the rule-set loader against the specification.  Deviation (over-rejection,
+    not a violation of the statement): the parser refuses a rule without any
+    `execute` step even where the specification gives it a pipeline (complete
+    default rule); [parse_ok] carries that extra demand. *)
+Theorem C14_ruleset_meets_spec : forall proxy def sd,
+  forallb scoped_rule (sd_rules sd) = true ->
+  load_ruleset proxy def sd =
+  if forallb parse_ok (sd_rules sd) && sd_version_ok sd
+  then match spec_rules proxy def (sd_rules sd) with Some es => Ok es | None => Rejected end
+  else Rejected.
+Proof. exact load_ruleset_spec. Qed.
+Print Assumptions C14_ruleset_meets_spec.
 
-(** non-vacuity: a partial default rule and a rule defining only a finalizer *)
+(** the trace of mechanisms executed for a request (rule_impl.go Execute), for
+    any CEL oracle [holds]: nothing fails — the first authenticator, then every
+    authorizer/contextualizer whose condition holds, then every finalizer whose
+    condition holds, in the order of the effective rule, and no error handler *)
+Theorem C14_trace_success : forall holds e p a sc,
+  pr_fail p = FNone -> f_sc e = a :: sc ->
+  run holds e p =
+  (false, tm a :: map tm (filter (applicable holds p) (f_sh e)) ++ map tm (filter (applicable holds p) (f_fi e))).
+Proof. exact run_success. Qed.
+Print Assumptions C14_trace_success.
+
+(** the authorization stage fails: the pipeline stops at the first applicable
+    authorizer/contextualizer, no finalizer runs, the first applicable error
+    handler of the EFFECTIVE error stage handles the error (else it is returned) *)
+Theorem C14_trace_failure : forall holds e p a sc,
+  pr_fail p = FMid -> stage_kinds e -> f_sc e = a :: sc ->
+  run holds e p =
+  match find (applicable holds p) (f_sh e) with
+  | Some h => let '(te, handled) := first_applicable holds p (f_eh e) in (negb handled, [tm a] ++ [tm h] ++ te)
+  | None => (false, tm a :: map tm (filter (applicable holds p) (f_fi e)))
+  end.
+Proof. exact run_mid_failure. Qed.
+Print Assumptions C14_trace_failure.
+
+(** the rules the factory creates have stages of the right kinds (hypothesis of
+    the theorem above) *)
+Theorem C14_stage_kinds : forall proxy def r e,
+  match def with Some d => stage_kinds d | None => True end ->
+  spec_rule proxy def r = Some e -> stage_kinds e.
+Proof. exact spec_rule_kinds. Qed.
+Print Assumptions C14_stage_kinds.
+
+(** T_main of the verdict protocol, for every input and without any guard: an
+    implementation that shows what the model shows satisfies the property's
+    predicate (so "correspondence holds, property fails" cannot occur) *)
+Theorem C14_corr_implies_prop : forall holds proxy d r,
+  prop_rule (observe holds) robs_eqb proxy d r (map_load (observe holds) (load proxy d r)) = true.
+Proof. intros holds proxy d r. apply corr_implies_prop. apply robs_eqb_iff. Qed.
+Print Assumptions C14_corr_implies_prop.
+
+Theorem C14_corr_implies_prop_set : forall holds proxy d k sd,
+  prop_set holds proxy d k sd (run_set holds proxy d k sd) = true.
+Proof. exact corr_implies_prop_set. Qed.
+Print Assumptions C14_corr_implies_prop_set.
+
+(** what the predicate means when it holds on an observation of a loaded rule *)
+Theorem C14_prop_sound : forall holds proxy d r x def,
+  prop_rule (observe holds) robs_eqb proxy d r (Loaded (Ok x)) = true ->
+  scoped_default d = true -> scoped_rule r = true -> spec_default_opt d = Some def ->
+  exists e, spec_rule proxy def r = Some e /\ x = observe holds e.
+Proof. intros holds proxy d r x def. apply prop_rule_sound. apply robs_eqb_iff. Qed.
+Print Assumptions C14_prop_sound.
+
+(** non-vacuity: a partial default rule (from which the authenticator, the
+    authorizer and backtracking are inherited) and a rule defining only a
+    conditional finalizer with an override; the GET request executes all three,
+    the POST request skips the finalizer *)
 Example C14_nonvacuous :
-  let au := {| s_authn := Some {| k_id := Some 1; k_ok := true |}; s_authz := None; s_ctx := None;
-               s_fin := None; s_if := CondNil; s_cfg := CfgNil |} in
-  let fi := {| s_authn := None; s_authz := None; s_ctx := None;
-               s_fin := Some {| k_id := Some 7; k_ok := true |}; s_if := CondOk; s_cfg := CfgMap |} in
-  load true false (Some {| d_exec := [au]; d_eh := []; d_bt := true |})
-       {| r_exec := [fi]; r_eh := []; r_bt := None; r_backend := false; r_matchers_ok := true |}
-  = Loaded (Ok {| f_sc := [ {| m_kind := KAuthn; m_id := 1; m_cond := false |} ]; f_sh := [];
-                  f_fi := [ {| m_kind := KFin; m_id := 7; m_cond := true |} ]; f_eh := []; f_bt := true |}).
-Proof. vm_compute. reflexivity. Qed.
+  let key n := Some {| k_id := Some n; k_ok := true |} in
+  let au := {| s_authn := key 1; s_authz := None; s_ctx := None; s_fin := None; s_if := CondNil; s_cfg := CfgNil |} in
+  let az := {| s_authn := None; s_authz := key 3; s_ctx := None; s_fin := None; s_if := CondNil; s_cfg := CfgNil |} in
+  let fi := {| s_authn := None; s_authz := None; s_ctx := None; s_fin := key 7; s_if := CondOk 0; s_cfg := CfgMap 2 |} in
+  let holds c m := Nat.eqb c m in
+  let d := Some {| d_exec := [au; az]; d_eh := []; d_bt := true |} in
+  let r := {| r_exec := [fi]; r_eh := []; r_bt := None; r_backend := false; r_matchers_ok := true |} in
+  scoped_rule r = true /\
+  load false d r =
+    Loaded (Ok {| f_sc := [ {| m_kind := KAuthn; m_id := 1; m_cond := None; m_cfg := None |} ];
+                  f_sh := [ {| m_kind := KAuthz; m_id := 3; m_cond := None; m_cfg := None |} ];
+                  f_fi := [ {| m_kind := KFin; m_id := 7; m_cond := Some 0; m_cfg := Some 2 |} ];
+                  f_eh := []; f_bt := true |}) /\
+  (forall e, load false d r = Loaded (Ok e) ->
+     run holds e {| pr_meth := 0; pr_fail := FNone |} = (false, [(KAuthn, 1, None); (KAuthz, 3, None); (KFin, 7, Some 2)]) /\
+     run holds e {| pr_meth := 1; pr_fail := FNone |} = (false, [(KAuthn, 1, None); (KAuthz, 3, None)])).
+Proof.
+  split; [reflexivity|]. split; [vm_compute; reflexivity|].
+  intros e H. vm_compute in H. inversion H; subst e. split; vm_compute; reflexivity.
+Qed.
+
+(** History: finding C14-F1 (repaired by fix: commit 97aaffa).  The factory of
+    the pinned commit ignored a rule's own backtracking_enabled when no default
+    rule is configured; [create_rule_pinned] is that behaviour, kept only to
+    document the finding — it corresponds to no code in the tree any more and is
+    not part of the check's obligations. *)
+Theorem C14_F1_pinned_refuted :
+  exists r eff, scoped_rule r = true /\ r_bt r = Some true /\
+    create_rule_pinned false None r = Ok eff /\ spec_rule false None r <> Some eff.
+Proof. exact F1_pinned_refuted. Qed.
+Print Assumptions C14_F1_pinned_refuted.
